@@ -432,6 +432,15 @@ fn fact_in_exponent_or_call() -> impl Strategy<Value = Expr> {
     })
 }
 
+/// As `exprs`, without facts inside exponents and digits arguments: for callers that hand the text to the tool
+/// without a reference evaluation (and its size guard) in front — there a fact as an exponent is a resource test.
+pub fn exprs_plain() -> impl Strategy<Value = Vec<Expr>> {
+    prop_oneof![
+        5 => expression().prop_map(|e| vec![e]),
+        1 => prop::collection::vec(expression(), 2..=3),
+    ]
+}
+
 pub fn exprs() -> impl Strategy<Value = Vec<Expr>> {
     prop_oneof![
         5 => expression().prop_map(|e| vec![e]),
